@@ -429,7 +429,27 @@ def _guard_constraint(cond: str):
         "isinstance(self, NegatedFormula) and self.args[0] == other": lambda a, b: a == (not b),
         "isinstance(other, NegatedFormula) and other.args[0] == self": lambda a, b: b == (not a),
     }
-    return table.get(cond)
+    table.update({
+        # `other` is one of the conjuncts of self: self implies other;  one of the disjuncts: other implies self (and symmetrically)
+        "other in split_conjunction(self)": lambda a, b: (not a) or b,
+        "self in split_conjunction(other)": lambda a, b: (not b) or a,
+        "other in split_disjunction(self)": lambda a, b: (not b) or a,
+        "self in split_disjunction(other)": lambda a, b: (not a) or b,
+    })
+    if cond in table:
+        return table[cond]
+    try:
+        e = ast.parse(cond, mode="eval").body
+    except SyntaxError:
+        return None
+    if isinstance(e, ast.BoolOp):
+        parts = [_guard_constraint(src(v)) for v in e.values]
+        if any(p_ is None for p_ in parts):
+            return None
+        if isinstance(e.op, ast.Or):
+            return lambda a, b: any(p_(a, b) for p_ in parts)
+        return lambda a, b: all(p_(a, b) for p_ in parts)
+    return None
 
 
 def rule_n6(ctx):
@@ -515,7 +535,150 @@ def rule_n7(ctx):
               "<stem>_<n> can be captured by a quantifier two or more levels further inside that binds the same name", "recursive BoundVariablesCollector")
 
 
+Z3H = "src/isla/z3_helpers.py"
+
+
+class _PathEval:
+    """Tiny path-sensitive interpreter for z3_push_in_negations: runs the statement list for one (kind of formula, negate) case and returns the shape of what is
+    returned: (constructor, flag handed to the recursive calls on the children) - abstract, no repository code is executed."""
+
+    def __init__(self, fname, kind, negate, rule, construct):
+        self.fname, self.kind, self.negate, self.rule, self.c = fname, kind, negate, rule, construct
+        self.env = {}
+
+    def bad(self, why):
+        raise Unrecognised(self.rule, self.c, why)
+
+    def test(self, e) -> bool:
+        t = src(e)
+        table = {"z3.is_not(formula)": self.kind == "not", "z3.is_and(formula)": self.kind == "and", "z3.is_or(formula)": self.kind == "or",
+                 "isinstance(formula, z3.QuantifierRef)": self.kind in ("forall", "exists"), "z3.is_quantifier(formula)": self.kind in ("forall", "exists"),
+                 "formula.is_forall()": self.kind == "forall", "formula.is_exists()": self.kind == "exists", "negate": self.negate}
+        if t in table:
+            return table[t]
+        if isinstance(e, ast.UnaryOp) and isinstance(e.op, ast.Not):
+            return not self.test(e.operand)
+        if isinstance(e, ast.BoolOp):
+            vs = [self.test(v) for v in e.values]
+            return all(vs) if isinstance(e.op, ast.And) else any(vs)
+        self.bad(f"test `{t}` not understood")
+
+    def flag(self, e):
+        if isinstance(e, ast.Constant) and isinstance(e.value, bool):
+            return e.value
+        if isinstance(e, ast.Name) and e.id == "negate":
+            return self.negate
+        if isinstance(e, ast.UnaryOp) and isinstance(e.op, ast.Not):
+            return not self.flag(e.operand)
+        self.bad(f"negate argument `{src(e)}` not understood")
+
+    def rec_flag(self, e):
+        """flag of the recursive call(s) inside expression e (all must agree); None if there is no recursive call"""
+        flags = set()
+        for c in [x for x in ast.walk(e) if isinstance(x, ast.Call) and call_name(x) == self.fname]:
+            if len(c.args) >= 2:
+                flags.add(self.flag(c.args[1]))
+            elif any(k.arg == "negate" for k in c.keywords):
+                flags.add(self.flag(next(k.value for k in c.keywords if k.arg == "negate")))
+            else:
+                flags.add(False)
+        for n in [x for x in ast.walk(e) if isinstance(x, ast.Name) and x.id in self.env]:
+            f_ = self.rec_flag(self.env[n.id])
+            if f_ is not None:
+                flags.add(f_)
+        if len(flags) > 1:
+            self.bad(f"children are pushed with different flags in `{src(e)[:60]}`")
+        return next(iter(flags)) if flags else None
+
+    def value(self, e):
+        if isinstance(e, ast.IfExp):
+            return self.value(e.body if self.test(e.test) else e.orelse)
+        if isinstance(e, ast.Call):
+            n = call_name(e)
+            if n == self.fname:
+                return ("rec", self.rec_flag(e))
+            if n in ("z3.And", "z3.Or", "z3.Exists", "z3.ForAll", "z3_and", "z3_or"):
+                return ({"z3_and": "z3.And", "z3_or": "z3.Or"}.get(n, n), self.rec_flag(e))
+            if n == "z3.simplify" and len(e.args) == 1:
+                return self.value(e.args[0])
+            if n == "z3.Not" and len(e.args) == 1 and src(e.args[0]) == "formula":
+                return ("z3.Not(formula)", None)
+        if isinstance(e, ast.Name) and e.id == "formula":
+            return ("formula", None)
+        if isinstance(e, ast.Name) and e.id in self.env:
+            return self.value(self.env[e.id])
+        self.bad(f"returned expression `{src(e)[:70]}` not understood")
+
+    def run(self, stmts):
+        for st in stmts:
+            if isinstance(st, ast.If):
+                r = self.run(st.body if self.test(st.test) else st.orelse)
+                if r is not None:
+                    return r
+            elif isinstance(st, ast.Return):
+                return self.value(st.value)
+            elif isinstance(st, ast.Assign) and len(st.targets) == 1 and isinstance(st.targets[0], ast.Name):
+                self.env[st.targets[0].id] = st.value
+            elif isinstance(st, ast.Expr) and isinstance(st.value, ast.Constant):
+                continue
+            else:
+                self.bad(f"statement `{src(st)[:60]}` not understood")
+        return None
+
+
+def rule_n9(ctx):
+    """z3_push_in_negations (negation normal form INSIDE an SMT atom) - duality table computed per (connective, negate) case."""
+    f = ctx.repo.func(Z3H, "z3_push_in_negations", "C09.N9")
+    c = f"{Z3H}:z3_push_in_negations"
+    want = {("not", False): ("rec", True), ("not", True): ("rec", False),
+            ("and", False): ("z3.And", False), ("and", True): ("z3.Or", True), ("or", False): ("z3.Or", False), ("or", True): ("z3.And", True),
+            ("forall", False): ("z3.ForAll", False), ("forall", True): ("z3.Exists", True), ("exists", False): ("z3.Exists", False), ("exists", True): ("z3.ForAll", True),
+            ("atom", False): ("formula", None), ("atom", True): ("z3.Not(formula)", None)}
+    for (kind, negate), expected in want.items():
+        got = _PathEval("z3_push_in_negations", kind, negate, "C09.N9", c).run(f.body)
+        ctx.check(got == expected, "N9-z3-duality", c, f"{kind} under negate={negate} -> {expected[0]}" + (f" with children pushed under negate={expected[1]}" if expected[1] is not None else ""), site(f),
+                  f"for a `{kind}` term under negate={negate} the function builds {got} instead of {expected}: e.g. `not (or a b)` must become `(and (not a) (not b))`", "De Morgan / quantifier duality")
+
+
+def rule_n8(ctx):
+    """Renaming / substitution maps are applied SIMULTANEOUSLY: no substitute_* method folds the map entry by entry over an accumulator
+    (a chained map {v0 -> v1, v1 -> v2}, as ensure_unique_bound_variables produces, would collapse v0 and v1)."""
+    m = ctx.repo.module(LANG, "C09.N8")
+    n = 0
+    for q, fn in m.functions():
+        if not isinstance(fn, ast.FunctionDef) or fn.name not in ("substitute_variables", "substitute_expressions"):
+            continue
+        params = [a.arg for a in fn.args.args if a.arg != "self"]
+        if not params:
+            continue
+        mp = params[0]
+        n += 1
+        construct = f"{LANG}:{q}"
+        seq = None
+        for loop in [x for x in walk_local(fn) if isinstance(x, ast.For)]:
+            if mp not in {y.id for y in ast.walk(loop.iter) if isinstance(y, ast.Name)}:
+                continue
+            for a in ast.walk(loop):
+                if isinstance(a, ast.Assign) and len(a.targets) == 1 and isinstance(a.targets[0], ast.Name):
+                    acc = a.targets[0].id
+                    reads_acc = any(isinstance(y, ast.Name) and y.id == acc for y in ast.walk(a.value))
+                    has_call = any(isinstance(y, ast.Call) for y in ast.walk(a.value))
+                    if reads_acc and has_call:
+                        seq = (loop, a)
+        if seq is None:
+            ctx.ok("N8-simultaneous-substitution", construct, f"`{mp}` applied in one pass", site(fn), "no entry-by-entry fold over the map")
+        else:
+            loop, a = seq
+            ctx.viol("N8-simultaneous-substitution", construct, f"`{mp}` applied in one pass", site(a),
+                     f"the map `{mp}` is applied one entry at a time (`{' '.join(src(a).split())[:70]}` inside `for {src(loop.target)} in {src(loop.iter)}`): this is sequential, not simultaneous "
+                     "substitution - for a chained renaming {v_0 -> v_1, v_1 -> v_2} both variables end up as v_2 and a formula such as `not v_0 = v_1` changes its meaning")
+    if n < 8:
+        raise Unrecognised("C09.N8", LANG, f"only {n} substitute_* methods found (expected >= 8)")
+
+
 def run(ctx) -> str:
+    ctx.guarded("N8", lambda: rule_n8(ctx))
+    ctx.guarded("N9", lambda: rule_n9(ctx))
     ctx.guarded("N7", lambda: rule_n7(ctx))
     ctx.guarded("N1", lambda: rule_n1(ctx))
     ctx.guarded("N2", lambda: rule_n2(ctx))
